@@ -87,12 +87,12 @@ COVER = [
 
 
 def covering_sets(name: str):
+    """Directional: only the structural / shape-matched side (first set) may be excused by the interpreting side (second set). An
+    interpreting rule that cannot run leaves its obligations undecided - the structural reading is weaker and does not stand in."""
     out = []
     for a, b in COVER:
         if name in a:
             out.append(b)
-        if name in b:
-            out.append(a)
     return out
 
 
